@@ -14,6 +14,32 @@ LEVELS = {'C14': 'other', 'C15': 'other', 'C18': 'other', 'C19': 'other'}
 FORBIDDEN = re.compile(r'\b(Admitted|admit|Axiom|Parameter|Conjecture|Unset Guard|bypass_check|Admit Obligations|type-in-type|impredicative-set)\b')
 
 
+class HangError(BaseException):
+    """raised by the watchdog (SIGALRM) inside library code that does not return; a BaseException so that the library's own
+    `except Exception` clauses (lenient play) cannot swallow it"""
+
+
+def _on_alarm(signum, frame): raise HangError('no progress within the time limit')
+
+
+class time_limit:
+    """with time_limit(seconds): <call into the library>  - HangError if it does not return in time; afterwards the general per-case
+    watchdog (armed by Ctx.case) is re-armed"""
+    GENERAL = 900
+    def __init__(self, seconds): self.seconds = seconds
+    def __enter__(self):
+        import signal
+        try:
+            signal.signal(signal.SIGALRM, _on_alarm); signal.setitimer(signal.ITIMER_REAL, self.seconds)
+        except ValueError: pass          # not the main thread
+        return self
+    def __exit__(self, *a):
+        import signal
+        try: signal.setitimer(signal.ITIMER_REAL, time_limit.GENERAL)
+        except ValueError: pass
+        return False
+
+
 def sh(cmd, timeout=600, cwd=None, env=None, input=None):
     """run a shell command; returns (rc, stdout+stderr)"""
     e = dict(os.environ)
@@ -121,6 +147,10 @@ class Ctx:
     def count(self, key, n=1):
         self.input_dist[key] = self.input_dist.get(key, 0) + n
     def case(self, nontrivial_key=None, n=1):
+        try:       # the general watchdog: a check that makes no progress for GENERAL seconds is interrupted (HangError) instead of hanging
+            import signal
+            signal.signal(signal.SIGALRM, _on_alarm); signal.setitimer(signal.ITIMER_REAL, time_limit.GENERAL)
+        except ValueError: pass
         self.evaluations += n
         if nontrivial_key is not None: self.nontrivial.add(nontrivial_key)
     def sample(self, s, limit=6):
@@ -194,6 +224,9 @@ class Ctx:
 
     # ---- finish ----
     def finish(self):
+        try:
+            import signal; signal.setitimer(signal.ITIMER_REAL, 0)
+        except ValueError: pass
         wall = time.time() - self.t0
         broken = self.broken_obligations()
         if broken and not self.violations:
